@@ -1,5 +1,6 @@
 //! verif-real: drives the real injectorpp (public API) with interposed system calls.
 #![allow(dead_code)]
+mod abi;
 mod arena;
 mod count;
 mod hist;
@@ -12,6 +13,7 @@ fn main() {
     match args.get(1).map(|s| s.as_str()) {
         Some("hist") => hist::main(&args[2..]),
         Some("count") => count::main(&args[2..]),
+        Some("abi") => abi::main(&args[2..]),
         _ => { eprintln!("usage: real <hist> ..."); std::process::exit(2) }
     }
 }
